@@ -11,7 +11,7 @@ is `Type(t).New()` followed by `Decode(src)` on the code-shaped model
 re-slice outside `[0, len)` is the outcome `.panic`.  All theorems quantify over
 *every* `src : List UInt8` and every type number `t` (no bound).
 -/
-import Mqtt.Proofs.CodecDecode
+import Mqtt.Proofs.CodecWire
 
 set_option linter.unusedSimpArgs false
 set_option maxRecDepth 8192
@@ -19,6 +19,7 @@ set_option maxRecDepth 8192
 namespace Mqtt.Properties.C04
 
 open Mqtt.Model.Codec Mqtt.Iface.Codec Mqtt.Proofs.Codec
+open Mqtt.Spec
 
 /-- **No panic, no out-of-bounds access**, for all 14 types (and the invalid type
 numbers) and all inputs: `Decode` either returns an error or succeeds. -/
@@ -43,7 +44,21 @@ theorem decode_keeps_packet (t : Nat) (src : Bytes) (d : Decoded) (h : decodeNew
     d.msg.hdr.dbuf = src.take d.n ∧ d.msg.hdr.dirty = false :=
   ⟨((decodeNew_total t src).of_ok h).dbuf, ((decodeNew_total t src).of_ok h).clean⟩
 
+/-- **Every well-formed MQTT 3.1.1 packet is accepted with the correct field values**:
+for every packet `p` that is well-formed (`Spec/Wire.lean`, written from the MQTT
+text), the decoder of `p`'s type, given the reference encoding of `p` followed by
+*any* further bytes, succeeds, consumes exactly the bytes of `p`, and the decoded
+message stands for exactly `p` (`absMsg`: every field equal). -/
+theorem decode_accepts_wf (p : Wire.Packet) (hwf : Wire.WF p) (rest : Bytes) :
+    ∃ d, decodeNew p.type (Wire.encode p ++ rest) = .ok d ∧
+      d.n = (Wire.encode p).length ∧ absMsg d.msg = p :=
+  accepts_wf p hwf rest
+
 /-! ### Non-vacuity: the decoders do succeed and do fail. -/
+
+/-- a well-formed CONNECT with will, user name and (empty) password -/
+example : Wire.WF (.connect { level := 4, clean := true, keepAlive := 60, clientId := [0x63],
+    will := some ⟨[0x77], [0x6d], 1, true⟩, username := some [0x75], password := some [] }) := by decide
 
 /-- PUBLISH QoS 1, topic "a/b", id 7, payload "hi", followed by two bytes of the next packet -/
 example :
